@@ -573,7 +573,12 @@ class Exec:
                 if isinstance(args, Raise): yield s2, args; continue
                 for s3, kwv in self.ev_seq([k.value for k in node.keywords], s2):
                     if isinstance(kwv, Raise): yield s3, kwv; continue
-                    kw = {k.arg: v for k, v in zip(node.keywords, kwv)}
+                    kw = {}
+                    for k, v in zip(node.keywords, kwv):
+                        if k.arg is None:
+                            if not isinstance(v, dict): raise Unsupported("** of a non-dict")
+                            kw.update(v)
+                        else: kw[k.arg] = v
                     yield from self.call(s3, fn, args, kw, node)
 
     def call(self, st, fn, args, kw, node=None):
@@ -878,8 +883,12 @@ class Exec:
 
     def st_For(self, node, st):
         spec = self.loop_spec(node)
+        if spec is not None and getattr(spec, "unroll", None):
+            raise Unsupported("unrolled for loop")
         for s, it in self.ev(node.iter, st):
             if isinstance(it, Raise): yield s, ("raise", it.exc); continue
+            if isinstance(it, Ref) and ("iter:" + it.cls) in self.contracts:
+                it = self.contracts["iter:" + it.cls](self, s, it)
             if spec is None:
                 if isinstance(it, (list, tuple, str, dict)):          # concrete: unroll
                     yield from self.unroll_for(node, s, list(it), 0); continue
@@ -901,8 +910,11 @@ class Exec:
         name = "%s/loop%d" % (self.current_fn, self.loop_ordinal(node))
         idx_name = "_i%d" % self.loop_ordinal(node)
         env = st.frames[-1].env
+        fallible = None
         if kind == "for":
             env[idx_name] = 0
+            if isinstance(iterable, FallibleIter):
+                fallible = iterable; iterable = iterable.seq
             seq = self.as_ufl(st, iterable)
             env["_seq%d" % self.loop_ordinal(node)] = seq
         # 1. invariant on entry
@@ -935,9 +947,18 @@ class Exec:
             conds = list(self.ev(node.test, head.copy()))
         else:
             i = henv[idx_name].z
+            conds = []
+            if fallible is not None:
+                # an iterator that may raise instead of delivering element number fail_at (0 <= fail_at <= len); otherwise it is exhausted normally
+                f = lift(fallible.fail_at).z; fails = z3.And(f >= 0, f <= seq.length)
+                head.pc.append(z3.Implies(fails, i <= f))
+                here = z3.And(fails, i == f)
+                s_r = head.copy(); s_r.pc.append(here)
+                if feasible(s_r.pc):
+                    for s_r2, r in fallible.raise_fn(self, s_r): conds.append((s_r2, r))
+                head.pc.append(z3.Not(here))
             s_in = head.copy(); s_in.pc.append(i < seq.length)
             s_out = head.copy(); s_out.pc.append(i >= seq.length)
-            conds = []
             if feasible(s_in.pc): conds.append((s_in, "FOR_IN"))
             if feasible(s_out.pc): conds.append((s_out, "FOR_OUT"))
         for s, c in conds:
@@ -1042,6 +1063,9 @@ class Closure(FuncRef):
         super().__init__(mod, cls, node, None); self.def_depth = def_depth
     @property
     def qualname(self): return self.mod.name + ".<closure>." + self.node.name
+class FallibleIter:
+    """abstract iterator over `seq` that raises (via raise_fn(ex, st) -> (st, Raise)*) instead of delivering element fail_at"""
+    def __init__(self, seq, fail_at, raise_fn): self.seq = seq; self.fail_at = fail_at; self.raise_fn = raise_fn
 class EnumerateOf:
     def __init__(self, ufl, start): self.ufl = ufl; self.start = start; self.length = ufl.length; self.elem_ty = None
     def elem(self, i): return (Sym(INT, i + lift(self.start).z), Sym(self.ufl.elem_ty, self.ufl.at(i)))
